@@ -427,10 +427,30 @@ func itemToGo(it *titem) interface{} {
 	return m
 }
 
+// toGo builds the library's data object; the variables go in one by one, all at once (SetVariables), or by way of a
+// second data object that is merged in (Merge) - the same data whichever way
 func (d *tdata) toGo() *document.TemplateData {
 	td := document.NewTemplateData()
-	for k, v := range d.vars {
-		td.SetVariable(k, v)
+	switch (len(d.vars) + len(d.lists)) % 3 { // (no shared counter: data objects are built from several goroutines)
+	case 0:
+		for k, v := range d.vars {
+			td.SetVariable(k, v)
+		}
+	case 1:
+		m := map[string]interface{}{}
+		for k, v := range d.vars {
+			m[k] = v
+		}
+		td.SetVariables(m)
+	default:
+		other := document.NewTemplateData()
+		other.SetVariable("stale", "overwritten")
+		td.SetVariable("stale", "x")
+		for k, v := range d.vars {
+			other.SetVariable(k, v)
+		}
+		td.Merge(other)
+		delete(td.Variables, "stale")
 	}
 	for k, v := range d.conds {
 		td.SetCondition(k, v)
